@@ -148,6 +148,7 @@ class Evaluator:
             else:
                 empty_pos = 0
             start = end = empty_pos
+        self.cache = {}
         value = self.ev(t.prod.root, vals, empty_pos)
         return value, start, end
 
@@ -181,8 +182,13 @@ class Evaluator:
             return ("none",)
         if k == "sub":
             n = e[1]
+            if id(n) in self.cache:
+                return self.cache[id(n)]
+            for a in getattr(n, "pre", []):
+                self.ev(a, vals, empty_pos)
             args = [self.ev(a, vals, empty_pos) for a in n.args]
             if n.kind == "default":
+                self.cache[id(n)] = args[0]
                 return args[0]
             kinds = getattr(n, "argkinds", ["u8"] * len(args))
             words = []
@@ -197,7 +203,8 @@ class Evaluator:
             self.log.append((n.id, words))
             if n.kind == "fallible" and self.fail == callno:
                 raise Fail(200 + callno)
-            return (17 * callno + 3) % 251
+            self.cache[id(n)] = (17 * callno + 3) % 251
+            return self.cache[id(n)]
         raise ValueError(e)
 
 
